@@ -139,8 +139,8 @@ def RState.addRRset (s : RState) (sec : Nat) (r : RRset) : Step :=
     | .error e => .err e
     | .ok (o, t, n) => s.endTrack s.out.length o t sec n
 
-/-- `add_opt(opt, pad, opt_size, tsig_size)` -/
-def RState.addOpt (s : RState) (o : EOpt) (pad optSize tsigSize : Nat) : Step :=
+/-- `add_opt(opt, pad, opt_size, tsig_size)` once the padding is known to fit a PADDING option -/
+def RState.addOptCore (s : RState) (o : EOpt) (pad optSize tsigSize : Nat) : Step :=
   if pad ≠ 0 then
     let sizeWithoutPadding := s.out.length + optSize + tsigSize
     let remainder := sizeWithoutPadding % pad
@@ -148,6 +148,16 @@ def RState.addOpt (s : RState) (o : EOpt) (pad optSize tsigSize : Nat) : Step :=
     let o' : EOpt := { o with options := o.options ++ [(ConstsC03.optPADDING, padding)] }
     { s with wasPadded := true }.addRRset ConstsC03.secADDITIONAL (optRRset o')
   else s.addRRset ConstsC03.secADDITIONAL (optRRset o)
+
+/-- the number of padding octets `add_opt` computes -/
+def padLen (outLen pad optSize tsigSize : Nat) : Nat :=
+  if (outLen + optSize + tsigSize) % pad ≠ 0 then pad - (outLen + optSize + tsigSize) % pad else 0
+
+/-- `add_opt(opt, pad, opt_size, tsig_size)`: a padding that a PADDING option cannot carry (16-bit option length) is
+`TooBig`, raised before anything is written or marked (repair 2d35a76) -/
+def RState.addOpt (s : RState) (o : EOpt) (pad optSize tsigSize : Nat) : Step :=
+  if pad ≠ 0 ∧ padLen s.out.length pad optSize tsigSize > 65535 then .tooBig s
+  else s.addOptCore o pad optSize tsigSize
 
 /-- `add_edns(edns, ednsflags, payload, options)`: the version octet of the flags is replaced by `edns` -/
 def RState.addEdns (s : RState) (edns ednsflags payload : Nat) (options : List (Nat × Bytes)) : Step :=
